@@ -502,4 +502,38 @@ theorem interpolateToks_grows : ∀ (ts : List Tok) (st st' : St) (c : Nat) (acc
       obtain ⟨_, r, _, ha, _, _⟩ := handleRef_spec st st1 c k ds s hh
       exact (applyRef_links st st1 c r ha).1.trans (interpolateToks_grows ts st1 st' c _ out h)
 
+/-! ### `PythonJob.call`: the same bookkeeping for every argument -/
+
+theorem SameRes.source {a b : St} (h : SameRes a b) (r : Rid) : b.source r = a.source r := by
+  cases r <;> simp [St.source, St.file?, St.group?, h.1, h.2.1]
+
+theorem SameRes.expandFiles {a b : St} (h : SameRes a b) (r : Rid) : b.expandFiles r = a.expandFiles r := by
+  cases r <;> simp [St.expandFiles, St.file?, St.group?, h.1, h.2.1]
+
+theorem applyRefs_spec (c : Nat) : ∀ (rs : List Rid) (st st' : St), applyRefs st c rs = .ok st' →
+    SameRes st st' ∧ Grows st st' ∧
+    ∀ r ∈ rs, ∀ p, st.source r = some p → p ≠ c →
+      p ∈ (st'.job c).deps ∧ ∀ n ∈ st.expandFiles r, n ∈ (st'.job c).inputs ∧ n ∈ (st'.job p).internalOut
+  | [], st, st', h => by
+    simp only [applyRefs, Except.ok.injEq] at h
+    subst h
+    exact ⟨SameRes.refl _, Grows.refl _, fun r hr => by cases hr⟩
+  | r :: rs, st, st', h => by
+    simp only [applyRefs] at h
+    cases ha : applyRef st c r with
+    | error e => rw [ha] at h; cases h
+    | ok st1 =>
+      rw [ha] at h
+      simp only at h
+      have hsame1 := applyRef_sameRes st st1 c r ha
+      obtain ⟨hg1, hl1⟩ := applyRef_links st st1 c r ha
+      obtain ⟨hsame2, hg2, hl2⟩ := applyRefs_spec c rs st1 st' h
+      refine ⟨hsame1.trans hsame2, hg1.trans hg2, ?_⟩
+      intro r' hr' p hs hpc
+      rcases List.mem_cons.mp hr' with rfl | hmem
+      · obtain ⟨_, hd, hf⟩ := hl1 p hs hpc
+        exact ⟨(hg2 c).2.2 p hd, fun n hn => ⟨(hg2 c).1 n (hf n hn).1, (hg2 p).2.1 n (hf n hn).2⟩⟩
+      · have := hl2 r' hmem p (by rw [hsame1.source]; exact hs) hpc
+        exact ⟨this.1, fun n hn => this.2 n (by rw [hsame1.expandFiles]; exact hn)⟩
+
 end HailVerif.BatchDsl
